@@ -146,6 +146,34 @@ def check_cli(case):
     return out
 
 
+# ---- large messages: the three-octet total length is the only limit on a message's size ------------------------
+def large_case(n_strings, edition=4, compressed=False):
+    """one message of about 255 * n_strings octets: 101000 031002 205255 with n_strings character values (some holding the
+    start and stop signatures)"""
+    from refbufr import frame
+    meta = frame.default_meta(edition)
+    meta.update({'master_table_version': 33, 'n_subsets': 2 if compressed else 1, 'is_compressed': compressed})
+    vals = []
+    for k in range(n_strings):
+        txt = (b'%06d ' % k) + (b'BUFR' if k % 97 == 3 else b'7777' if k % 89 == 5 else b'data')
+        vals.append((txt * 24)[:255])
+    if compressed:
+        return gmsg.case_from_raws(meta, [101000, 31002, 205255], columns=[[n_strings, n_strings]] + [[v, v[::-1]] for v in vals])
+    return gmsg.case_from_raws(meta, [101000, 31002, 205255], subsets=[[n_strings] + vals])
+
+
+def large_streams(tier, seed):
+    sizes = [258, 2400] if tier == 'quick' else [257, 258, 1200, 1960, 1961, 2400, 4200, 33000]
+    small = [gmsg.case_from_raws(dict(large_case(1).meta, edition=4), [1001, 1002], subsets=[[1, 2]]),
+             gmsg.case_from_raws(dict(large_case(1).meta), [205004], subsets=[[b'BUFR']])]
+    out = []
+    for j, n in enumerate(sizes):
+        big = large_case(n, edition=[4, 3][(j + seed) % 2], compressed=(j + seed) % 3 == 0 and n <= 2400)
+        cases = [small[0], big, small[1]] if (j + seed) % 2 else [big, small[1], small[0]]
+        out.append(StreamCase(cases, [b'', b'\r\r\n', b'BUF', b'7777'][:len(cases) + 1]))
+    return out
+
+
 # ---- coverage-guided stage: the same generator and oracle, decisions taken from fuzzer bytes (vlib.fuzz) ----
 _FUZZ_OPTS = gstreams.small_opts('quick')
 
@@ -176,7 +204,15 @@ def run(tier, seed):
         runner.run_generated(rep, lambda ch: gen_case(ch, opts), check_cli, 1500, workers, stage='command line')
     else:
         runner.run_generated(rep, lambda ch: gen_case(ch, opts), check_cli, 40, 4, stage='command line')
-    rep.required_classes = ['n_messages_0', 'n_messages_4+', 'signature_in_a_body', 'signature_in_section2', 'filter_selects_some',
+    for sc in large_streams(tier, seed):
+        o = check_case(sc)
+        big = max(len(c.bytes) for c in sc.cases)
+        rep.add_case(sc.key(), True, ['message_longer_than_65535_octets'] + (['message_longer_than_500000_octets'] if big > 500000 else []),
+                     None)
+        for clause, detail in o.failures:
+            rep.add_failure('large message: ' + clause, dict(detail, largest_message_octets=big), sc.to_json(),
+                            stage='large messages')
+    rep.required_classes = ['n_messages_0', 'n_messages_4+', 'message_longer_than_500000_octets', 'signature_in_a_body', 'signature_in_section2', 'filter_selects_some',
                             'filter_mixed_editions', 'partial_signature_separator', 'mixed_editions', 'cli']
     fuzz.run_structured(rep, 'checks.c11', _fuzz_gen, tier)
     return rep.finish()
